@@ -25,8 +25,13 @@ def diff_streams(rep, prop, cfg, tier, seed, binary, workdir, kf):
             executors[name] = ent[3]
     for c in cfg.get('corpus_exec', {}):
         executors['corpus:' + c] = cfg['corpus_exec'][c]
+    race_reports = cfg.setdefault('_race_reports', [])
     for label, args, fname in jobs:
         e = dict(os.environ, VERIF_TIER=tier, GOMEMLIMIT='6GiB')
+        if cfg.get('race'):
+            # the race detector FINDS the schedule; reports go to files, the run continues
+            e['GORACE'] = f'halt_on_error=0 exitcode=0 log_path={workdir}/race-{fname}'
+            os.environ['VERIF_GORACE'] = e['GORACE']
         rc, out = lib.sh([binary] + args, env=e, timeout=6000)
         if rc != 0:
             raise MachineryError(f'harness {label} failed rc={rc}:\n{out[-3000:]}')
@@ -72,7 +77,7 @@ def diff_streams(rep, prop, cfg, tier, seed, binary, workdir, kf):
                 # conditional model answer: "IF the third-party validators accept the opaque bodies THEN this value"
                 m = i if i == 'err' else 'ok ' + m[5:]
             if kind in cfg.get('twophase_ops', ()):
-                i, m = lib.reconcile_any(i, m)
+                i, m = (lib.multi(f2=lib.reconcile_any) if kind == 'e2emulti' else lib.reconcile_any)(i, m)
             proj = cfg.get('project')
             if proj and kind in proj:
                 i, m = proj[kind](i), proj[kind](m)
@@ -89,6 +94,16 @@ def diff_streams(rep, prop, cfg, tier, seed, binary, workdir, kf):
             rec = {'stream': label, 'op': o, 'impl': i, 'expected': m}
             (oracle_fail if kind in oracle_ops else corr_fail).append(rec)
         rep.oblige(f'correspondence:{label}', 'correspondence', nfail == 0, f'{len(ops)} operations, {nfail} disagreement(s)')
+        if cfg.get('race'):
+            import glob
+            n0 = len(race_reports)
+            for rf in sorted(glob.glob(f'{workdir}/race-{fname}*')):
+                txt = open(rf, errors='replace').read()
+                for blk in txt.split('==================')[1::2]:
+                    if 'DATA RACE' in blk:
+                        race_reports.append({'stream': label, 'report': blk.strip()[:6000]})
+            rep.oblige(f'race-detector:{label}', 'race-detector', len(race_reports) == n0,
+                       f'{len(race_reports) - n0} data race report(s)')
     return oracle_fail, corr_fail
 
 
@@ -156,7 +171,7 @@ def run_diff_property(prop, cfg, tier, seed, replay=None):
                 m = i if i == 'err' else 'ok ' + m[5:]
             kind = r['op'].split(' ', 1)[0]
             if kind in cfg.get('twophase_ops', ()):
-                i, m = lib.reconcile_any(i, m)
+                i, m = (lib.multi(f2=lib.reconcile_any) if kind == 'e2emulti' else lib.reconcile_any)(i, m)
             if cfg.get('project') and kind in cfg['project']:
                 i, m = cfg['project'][kind](i), cfg['project'][kind](m)
             print('op      :', r['op'][:400])
@@ -171,6 +186,14 @@ def run_diff_property(prop, cfg, tier, seed, replay=None):
     finally:
         shutil.rmtree(workdir, ignore_errors=True)
     replay_cmd = f'python3 check/check.py {prop} --replay {{path}}'
+    races = cfg.get('_race_reports', [])
+    if races:
+        def frames(blk):
+            return [l.strip() for l in blk.split('\n') if l.strip().startswith(('github.com/wi1dcard', 'main.')) ][:12]
+        rep.violation(f"the race detector reports unsynchronised concurrent access ({len(races)} report(s)); first: " + ' <- '.join(frames(races[0]['report'])[:4]),
+                      {'property': prop, 'seed': seed, 'tier': tier, 'kind': 'data-race', 'stream': races[0]['stream'],
+                       'report': races[0]['report'], 'reports': len(races),
+                       'replay_cmd': f'python3 check/check.py {prop} --tier {tier}  (VERIF_SEED={seed}; harness built with -race)'})
     if oracle_fail:
         r = shortest(oracle_fail)
         rep.violation(f"property oracle: implementation answers '{r['impl'][:120]}' where the specification gives '{r['expected'][:120]}' ({len(oracle_fail)} failing case(s))",
